@@ -455,6 +455,8 @@ func runLifecycleScenario(sc *lcScenario, emitEv func(M)) {
 		})
 	}
 	sess := map[string]*lcSession{}
+	api := newLcApi(sm, sc.Sc%4 != 3, sc.Sc%3 == 1)
+	defer api.close()
 	var hls *lcHls
 	if len(sc.Cfg.HlsSubs) > 0 && !sc.Cfg.Outputs {
 		hls = newLcHls(sm, stream)
@@ -598,6 +600,10 @@ func runLifecycleScenario(sc *lcScenario, emitEv func(M)) {
 			sort.Strings(pipe)
 			ev["pipe"] = pipe
 			ev["filesOk"] = len(pipe) != 0 || lcFilesFinalised(outDir, stream)
+			if len(pipe) == 0 {
+				// no pipeline: what the publication that has ended (if one has) left in the outputs
+				ev["media"] = lcMediaCount(outDir, stream)
+			}
 		}
 		emitEv(ev)
 	}
@@ -627,6 +633,9 @@ func runLifecycleScenario(sc *lcScenario, emitEv func(M)) {
 		if sc.Sc%3 == 2 {
 			pullTimeoutMs = 60000 // the set-up of these scenarios never completes: its deadline must not end the scenario
 		}
+	}
+	if sc.Sc%3 == 1 {
+		pullTimeoutMs = 10000 // lal's default: these scenarios leave the field out of the API request (lcApi.omitDef)
 	}
 	for i, st := range sc.Steps {
 		if st.Name != "Advance" && autoMs > 0 && time.Since(lastStep) > time.Duration(autoMs)*time.Millisecond*4/10 {
@@ -739,12 +748,14 @@ func runLifecycleScenario(sc *lcScenario, emitEv func(M)) {
 			emit("DelCust", x, "ok")
 		case "StartPs":
 			// every second scenario: the TCP variant of the GB28181 input (a listener instead of a UDP socket)
-			resp := sm.CtrlStartRtpPub(base.ApiCtrlStartRtpPubReq{StreamName: stream, Port: 0, TimeoutMs: 60000, IsTcpFlag: sc.Sc % 2})
+			code, psId, psPort := api.startRtpPub(stream, 60000, sc.Sc%2)
 			ret := "ok"
-			if resp.ErrorCode != base.ErrorCodeSucc {
+			if code == -1 {
+				ret = "apierr"
+			} else if code != base.ErrorCodeSucc {
 				ret = "dup"
 			} else {
-				s := &lcSession{kind: kind, key: resp.Data.SessionId, psPort: resp.Data.Port}
+				s := &lcSession{kind: kind, key: psId, psPort: psPort}
 				if sc.Sc%2 == 1 {
 					// TCP mode: the device connects (and stays idle); when the session ends on lal's side the device
 					// must see its connection closed
@@ -899,13 +910,15 @@ func runLifecycleScenario(sc *lcScenario, emitEv func(M)) {
 					"psPub": base.UkPrePsPubSession, "flvSub": base.UkPreFlvSubSession, "tsSub": base.UkPreTsSubSession,
 					"hlsSub": base.UkPreHlsSubSession}[kind] + "999999"
 			}
-			resp := sm.CtrlKickSession(base.ApiCtrlKickSessionReq{StreamName: stream, SessionId: key})
 			ret := "ok"
-			switch resp.ErrorCode {
+			switch api.kick(stream, key) {
+			case base.ErrorCodeSucc:
 			case base.ErrorCodeGroupNotFound:
 				ret = "nogroup"
 			case base.ErrorCodeSessionNotFound:
 				ret = "nosession"
+			default:
+				ret = "apierr"
 			}
 			if ret == "ok" && (kind == "rtspPub" || kind == "wirePub") {
 				if s := sess[x]; s != nil && s.done != nil {
@@ -1004,6 +1017,35 @@ func runLifecycleScenario(sc *lcScenario, emitEv func(M)) {
 			ev := M{"ev": "Probe", "x": x, "obs": M{"ret": ret, "notif": n, "hook": h, "attempts": origin.count(), "fwd": fwd}}
 			emitEv(ev)
 			continue
+		case "ProbePull":
+			// media of the relay pull that is attached: it enters the group where rtmp.PullSession hands it in
+			// (WithOnReadRtmpAvMsg(group.OnReadRtmpAvMsg)), like the media of the driver's RTMP publishers
+			msgs := []base.RtmpMsg{probeMsg(i + 1)}
+			if sc.Cfg.Outputs {
+				msgs = []base.RtmpMsg{probeHdr(i + 1), BuildMsg(&AMsg{Id: i + 1, T: "aud", Ha: 1}, 64, uint32((i+1)*10))}
+			}
+			if g := sm.GetGroup("", stream); g != nil {
+				for _, msg := range msgs {
+					g.OnReadRtmpAvMsg(msg)
+				}
+			}
+			{
+				n, h := drain()
+				fwd := false
+				for _, o := range sess {
+					if (o.kind == "rtmpSub" || o.kind == "flvSub") && o.conn != nil {
+						if b, _ := o.conn.Drain(); len(b) > 0 {
+							fwd = true
+						}
+					}
+				}
+				ret := "rejected"
+				if len(h) > 0 || fwd {
+					ret = "ok"
+				}
+				emitEv(M{"ev": "ProbePull", "obs": M{"ret": ret, "notif": n, "hook": h, "attempts": origin.count(), "fwd": fwd}})
+			}
+			continue
 		case "Misuse":
 			// a request that does not belong on a publisher's connection
 			if s := sess[x]; s != nil && s.kind == "rtspPub" && s.done != nil {
@@ -1090,11 +1132,12 @@ func runLifecycleScenario(sc *lcScenario, emitEv func(M)) {
 			}
 			emit("Tick", "", "ok")
 		case "StartPull":
-			resp := sm.CtrlStartRelayPull(base.ApiCtrlStartRelayPullReq{
-				Url: fmt.Sprintf("%s://%s/live/%s", pullScheme, origin.ln.Addr().String(), stream), StreamName: stream, RtspMode: 0,
-				PullTimeoutMs: pullTimeoutMs, PullRetryNum: sc.Cfg.PullRetry, AutoStopPullAfterNoOutMs: sc.Cfg.PullAutoMs})
+			code := api.startPull(fmt.Sprintf("%s://%s/live/%s", pullScheme, origin.ln.Addr().String(), stream), stream,
+				pullTimeoutMs, sc.Cfg.PullRetry, sc.Cfg.PullAutoMs)
 			ret := "ok"
-			if resp.ErrorCode != base.ErrorCodeSucc {
+			if code == -1 {
+				ret = "apierr"
+			} else if code != base.ErrorCodeSucc {
 				ret = "fail"
 			}
 			waitAttempts(&st)
@@ -1103,7 +1146,7 @@ func runLifecycleScenario(sc *lcScenario, emitEv func(M)) {
 			ret := "ok"
 			var code int
 			if st.Name == "StopPull" {
-				code = sm.CtrlStopRelayPull(stream).ErrorCode
+				code = api.stopPull(stream)
 			} else {
 				key := base.UkPreRtmpPullSession + "999999"
 				if sc.Cfg.PullRtsp {
@@ -1114,13 +1157,16 @@ func runLifecycleScenario(sc *lcScenario, emitEv func(M)) {
 						key = sp.StatPull.SessionId
 					}
 				}
-				code = sm.CtrlKickSession(base.ApiCtrlKickSessionReq{StreamName: stream, SessionId: key}).ErrorCode
+				code = api.kick(stream, key)
 			}
 			switch code {
+			case base.ErrorCodeSucc:
 			case base.ErrorCodeGroupNotFound:
 				ret = "nogroup"
 			case base.ErrorCodeSessionNotFound:
 				ret = "nosession"
+			default:
+				ret = "apierr"
 			}
 			if st.ExpNotif > 0 || ret == "ok" {
 				waitPullNotif()
@@ -1163,7 +1209,15 @@ func runLifecycleScenario(sc *lcScenario, emitEv func(M)) {
 			emit("PullOk", "", ret)
 		case "PullFail":
 			if c := origin.take(); c != nil {
-				c.Close()
+				// every second scenario: the origin hangs up after the handshake (RTMP: the client's connect is left
+				// unanswered; RTSP: after the answer to OPTIONS) instead of at once
+				if sc.Sc%2 == 0 {
+					c.Close()
+				} else if sc.Cfg.PullRtsp {
+					lcRtspLateClose(c)
+				} else {
+					lcRtmpLateClose(c)
+				}
 			}
 			waitFor(3*time.Second, func() bool { return countNotif("pull_stop") > 0 })
 			emit("PullFail", "", "ok")
@@ -1202,7 +1256,11 @@ func runLifecycleScenario(sc *lcScenario, emitEv func(M)) {
 			continue
 		case "PushFail":
 			if c := targets[x].take(); c != nil {
-				c.Close()
+				if sc.Sc%2 == 0 {
+					c.Close()
+				} else {
+					lcRtmpLateClose(c) // the target hangs up after the handshake
+				}
 			}
 			emit("PushFail", x, "ok")
 		case "PushEnd":
